@@ -13,6 +13,7 @@ import (
 	"runtime"
 	"strconv"
 	"strings"
+	"sync"
 	"testing"
 	"time"
 
@@ -411,7 +412,13 @@ func TestC09(t *testing.T) {
 	seen := map[string]bool{}
 	const defTTL = 150 * time.Millisecond
 	for _, R := range []int{1, 2} {
-		c, err := cluster.Start(cluster.Options{Replicas: R, Partitions: 7, Manual: true,
+		// the single-replica cluster has small storage tables and a stream of unrecorded filler writes during every batch, so
+		// that a key's entry soon sits in an older, read-only table when the follow-ups reach it
+		T := 0
+		if R == 1 {
+			T = 1024
+		}
+		c, err := cluster.Start(cluster.Options{Replicas: R, Partitions: 7, Manual: true, TableSize: T, Housekeeping: housekeeping(T),
 			DMaps: func(d *config.DMaps) {
 				d.Custom = map[string]config.DMap{"c09ttl": {TTLDuration: defTTL}}
 			}}, 3)
@@ -503,7 +510,26 @@ func TestC09(t *testing.T) {
 					sum.Evaluations += len(sc.Steps)
 					scripts = append(scripts, sc)
 				}
+				stopFill := make(chan struct{})
+				var fill sync.WaitGroup
+				if T > 0 {
+					fill.Add(1)
+					go func() {
+						defer fill.Done()
+						for n := 0; ; n++ {
+							select {
+							case <-stopFill:
+								return
+							default:
+							}
+							paths[0].Put(context.Background(), dmName, fmt.Sprintf("fill-%d-%d", b, n%400), fmt.Sprintf("%070d", n), PutOpts{Mode: "PX", D: time.Hour})
+							time.Sleep(300 * time.Microsecond)
+						}
+					}()
+				}
 				rec.Run(dmName, scripts, nil)
+				close(stopFill)
+				fill.Wait()
 				record(w, rec, &seq, sum, seen, trace.Ev{"cfg": cfg, "dmap": dmName}, func(h *History) bool { return true })
 			}
 		}
